@@ -34,7 +34,7 @@ def pinned_sources() -> dict:
         try:
             with gzip.open(path, 'rt', encoding='utf-8') as fh:
                 _PINNED_SRC = json.load(fh)
-        except OSError:
+        except (OSError, ValueError, EOFError):
             _PINNED_SRC = {}
     return _PINNED_SRC
 
